@@ -3,19 +3,24 @@
 (* One uTP connection endpoint as the listed properties pin it down: the   *)
 (* *contract*.  An endpoint is a record; every operator here is pure:      *)
 (*                                                                         *)
-(*   - effect operators  (Tx..., Recv..., Disp..., App...)  map an         *)
-(*     endpoint record and the arguments of one event to the next record;  *)
+(*   - effect operators (TxData, RecvAck, Disp..., App...) map an endpoint *)
+(*     record and the arguments of one event to the next record;           *)
 (*   - rule operators (R_Cxx_...) are the clauses of the properties, each  *)
-(*     a predicate over the endpoint record *before* the event and the     *)
-(*     event's arguments.                                                  *)
+(*     a predicate over the endpoint record and the event's arguments,     *)
+(*     with the clause quoted above it.                                    *)
 (*                                                                         *)
 (* The bounded models (MCData, MCClose, ...) use the rules as enabling     *)
-(* conditions of their actions; the trace specification (UtpTrace) applies *)
-(* the same effects to the events recorded from the real library and       *)
-(* *evaluates* the same rules on the recorded values.                      *)
+(* conditions / invariants of their actions; the trace specification       *)
+(* (UtpTrace) applies the same effects to the events recorded from the     *)
+(* real library and *evaluates* the same rules on the recorded values.     *)
+(*                                                                         *)
+(* Kinds of rule: P permission (evaluated on the event that needs it),     *)
+(* O obligation (a deadline that time may not pass; "immediate" ones may   *)
+(* not survive any advance of the clock).                                  *)
 (*                                                                         *)
 (* Sequence numbers are wire values modulo SeqMod; every comparison goes   *)
-(* through SeqArith!Dist (ideal modular distance).                         *)
+(* through SeqArith!Dist (ideal modular distance).  Time is in             *)
+(* microseconds.  Constants are those of the property statements.          *)
 (***************************************************************************)
 EXTENDS Integers, Sequences, FiniteSets, SeqArith
 
@@ -26,6 +31,13 @@ Nx(a, k) == (a + k) % SeqMod           \* a + k on the wire
 
 Max(a, b) == IF a > b THEN a ELSE b
 Min(a, b) == IF a < b THEN a ELSE b
+MaxSeq(a, b) == IF a < 0 THEN b ELSE IF b < 0 THEN a ELSE IF D(a, b) >= 0 THEN a ELSE b
+
+ACK_DELAY == 40000           \* C07 "within the 40 ms delayed-ACK interval"
+RTO_MIN   == 200000          \* C06 "within 200 ms..60 s"
+RTO_MAX   == 60000000
+DUP_THRESH == 3              \* C06 "three duplicate acknowledgements"
+Eps       == 1001            \* tokio's timer wheel rounds sleeps up to the next millisecond
 
 NoFin == [seq |-> -1, cnt |-> 0, acked |-> FALSE, abort |-> FALSE]
 
@@ -33,15 +45,17 @@ NoFin == [seq |-> -1, cnt |-> 0, acked |-> FALSE, abort |-> FALSE]
 (* Endpoint record.  cfg: the per-connection configuration as logged by    *)
 (* conn_new (buffer sizes, limits, Nagle, link MTU...).                    *)
 (***************************************************************************)
-NewEndpoint(cfg, isn, rnxt0, pwnd0) ==
+NewEndpoint(cfg, isn, rnxt0, pwnd0, now) ==
     [ cfg      |-> cfg,
       \* application side
       wr       |-> 0,          \* bytes accepted by write
       rd       |-> 0,          \* bytes handed to read
       rdFull   |-> FALSE,      \* last read filled its buffer (a partly read message may be parked in the reader)
-      wState   |-> "open",     \* open | shutdown | dropped
-      rState   |-> "open",     \* open | eof | err | dropped
+      wDropped |-> FALSE, rDropped |-> FALSE,
+      shutAt   |-> -1,         \* wr when shutdown was requested (-1: not requested)
       flushMark|-> 0,          \* largest wr covered by a successful flush / shutdown
+      pend     |-> {},         \* application calls that returned Pending and have not returned yet
+      readPend |-> FALSE,
       \* send side
       segs     |-> << >>,      \* wire seq -> segment record, for seqs not yet cumulatively acked
       una      |-> isn,        \* first sequence number not cumulatively acknowledged
@@ -52,12 +66,19 @@ NewEndpoint(cfg, isn, rnxt0, pwnd0) ==
       pwnd     |-> pwnd0,      \* window in the packet most recently processed
       lossSeen |-> FALSE,      \* a retransmission timeout or fast recovery has happened
       rtoMode  |-> FALSE,      \* after a timeout retransmission, until new data is acknowledged
-      rtoSeq   |-> -1,
+      rtoLast  |-> 0,          \* RTO value in force at the last timeout retransmission (0: none since progress)
+      rtxBase  |-> now,        \* last point at which the retransmission timer was necessarily (re)started
       dupAcks  |-> 0,          \* loosest reading of "duplicate ACK" count since the last advance
-      sackHi   |-> 0,          \* largest number of SACKed packets above the hole seen since the last advance
+      strictDup|-> 0,          \* strictest reading (ST_STATE, same ack, same window, data outstanding)
+      sackPkts |-> 0,          \* consecutive packets carrying a selective ACK
+      sackHi   |-> 0,          \* packets selectively acknowledged above the hole by the last packet
+      lastRxWnd|-> -1,
       recPoint |-> -1,         \* highest seq sent when loss evidence appeared (recovery point), -1 none
-      maxAcked |-> 0,          \* largest payload acknowledged or delivered (proven size, C14)
+      frDue    |-> 0,          \* line at which a fast retransmission became due (0: none)
+      maxAcked |-> 0,          \* largest payload acknowledged (proven size, C14)
+      probeOut |-> -1,         \* sequence number of the outstanding size probe, -1 none
       fin      |-> NoFin,
+      splitDelivered |-> FALSE, \* a probe was re-segmented after the peer had already stored it (known finding)
       \* receive side
       rnxt     |-> rnxt0,      \* last in-order sequence number stored
       held     |-> << >>,      \* wire seq -> payload length, packets held out of order
@@ -65,11 +86,23 @@ NewEndpoint(cfg, isn, rnxt0, pwnd0) ==
       maxPay   |-> 0,          \* largest payload stored
       lastAck  |-> -1,         \* last ack_nr emitted (-1: none yet)
       lastWnd  |-> -1,
+      rightEdge|-> cfg.rx_buf, \* largest (bytes stored so far + window) ever advertised
       peerFin  |-> -1,         \* sequence number of the peer's FIN once accepted
-      \* lifecycle
+      unackedB |-> 0,          \* bytes stored in order since the last emission
+      ackDue   |-> -1,         \* deadline of the delayed ACK (-1: nothing to acknowledge)
+      ackImm   |-> 0,          \* line at which an immediate ACK became due (0: none)
+      stim     |-> TRUE,       \* something happened to this endpoint since its previous emission
+      \* obligations of C02 / C17
+      idleWr   |-> 0, idleFin |-> 0, finAnsDue |-> 0, resetAt |-> 0, slotDue |-> 0,
+      \* bookkeeping
+      txCount  |-> 0, rxCount |-> 0, lastRxAt |-> now, lastWire |-> now,
+      tRtx     |-> -1, tAck |-> -1, idleArmed |-> -1, ringCap |-> cfg.tx_init, txPending |-> FALSE,
+      released |-> -1,
       state    |-> "new",
       dying    |-> "",         \* error string once the task announced its death ("ok" for a clean end)
+      deathCtx |-> "",         \* structural context of the death, for known-finding signatures
       ended    |-> FALSE,
+      endedAt  |-> -1,
       result   |-> "" ]
 
 (***************************************************************************)
@@ -77,16 +110,17 @@ NewEndpoint(cfg, isn, rnxt0, pwnd0) ==
 (***************************************************************************)
 Seg(off, len, now) ==
     [off |-> off, len |-> len, cnt |-> 1, probe |-> FALSE, sacked |-> FALSE,
-     lost |-> FALSE, counted |-> TRUE, first |-> now, last |-> now, ver |-> 1]
+     lost |-> FALSE, counted |-> TRUE, first |-> now, last |-> now, ver |-> 1, popped |-> FALSE]
 
 Known(e, s) == s \in DOMAIN e.segs
 Outstanding(e) == DOMAIN e.segs # {}
-FirstUnsacked(e) ==   \* lowest outstanding sequence number that is not selectively acked
-    LET c == { s \in DOMAIN e.segs : ~e.segs[s].sacked }
-    IN  IF c = {} THEN -1 ELSE CHOOSE s \in c : \A t \in c : D(s, t) <= 0
+SentUnacked(e) == \E s \in DOMAIN e.segs : ~e.segs[s].sacked /\ ~e.segs[s].popped
+FinUnacked(e) == e.fin.seq >= 0 /\ ~e.fin.acked /\ ~e.fin.abort
 
 Put(f, k, v) == [x \in DOMAIN f \cup {k} |-> IF x = k THEN v ELSE f[x]]
 Del(f, ks) == [x \in DOMAIN f \ ks |-> f[x]]
+
+OwnMss(e) == Max(e.cfg.mss0, Max(e.maxPay, e.maxAcked))   \* the endpoint's proven segment size
 
 (* a run list is the single run [pos, len] (short payloads may match at     *)
 (* several positions: alts; amb: too many to list)                          *)
@@ -100,18 +134,18 @@ RunIs(runs, alts, amb, pos, len) ==
 NoGarbage(runs) == \A i \in 1 .. Len(runs) : runs[i][1] >= 0
 
 (***************************************************************************)
-(* C01  byte-stream integrity: sender side                                 *)
+(* C01 / C06  byte-stream integrity: sender side                           *)
 (***************************************************************************)
-\* "every transmission of a sequence number carries the same bytes (only a
-\*  never-acknowledged size probe may be split)"  (C06; shared with C01)
+\* C06 "every transmission of a sequence number carries the same bytes (only a
+\*      never-acknowledged size probe may be split)"   (shared with C01: nothing altered)
 R_SegStable(e, s, runs, alts, amb, plen) ==
     Known(e, s) =>
         LET g == e.segs[s] IN
         \/ RunIs(runs, alts, amb, g.off, g.len) /\ plen = g.len
-        \/ (~g.sacked /\ plen < g.len /\ RunIs(runs, alts, amb, g.off, plen))
+        \/ (~g.sacked /\ (g.probe \/ g.popped) /\ plen < g.len /\ RunIs(runs, alts, amb, g.off, plen))
 
-\* a new sequence number continues the stream where its predecessor ended and
-\* carries only bytes the application has written
+\* C01 "nothing is lost, duplicated, reordered": a new sequence number continues the stream where
+\* its predecessor ended and carries only bytes the application has written
 R_SegContiguous(e, s, runs, alts, amb, plen) ==
     (~Known(e, s) /\ s = e.nxt) =>
         /\ RunIs(runs, alts, amb, e.nextOff, plen)
@@ -120,6 +154,12 @@ R_SegContiguous(e, s, runs, alts, amb, plen) ==
 R_NoGarbage(runs) == NoGarbage(runs)
 
 IsSplit(e, s, plen) == Known(e, s) /\ plen < e.segs[s].len
+IsRetx(e, s) == D(s, e.nxt) < 0       \* a sequence number that was transmitted before
+
+\* C06 "A segment the peer has acknowledged (cumulatively or selectively) is never retransmitted"
+R_C06_NeverRetxAcked(e, s) == IsRetx(e, s) => (Known(e, s) /\ ~e.segs[s].sacked)
+\* C06 "after the configured number of retransmissions the connection fails with an error rather than retrying forever"
+R_C06_Cap(e, s) == Known(e, s) => e.segs[s].cnt <= e.cfg.max_retx + 1    \* on the state after TxData; per version
 
 TxData(e, s, pos, plen, now) ==
     IF Known(e, s)
@@ -127,16 +167,30 @@ TxData(e, s, pos, plen, now) ==
              split == plen < g.len
              g2 == [g EXCEPT !.cnt = IF split THEN 1 ELSE @ + 1, !.last = now,
                              !.len = plen, !.lost = FALSE, !.counted = TRUE,
-                             !.ver = IF split THEN @ + 1 ELSE @,
+                             !.ver = IF split THEN @ + 1 ELSE @, !.popped = FALSE,
+                             !.probe = IF split THEN FALSE ELSE @,
                              !.first = IF split THEN now ELSE @]
              fl == e.flight - (IF g.counted THEN g.len ELSE 0) + plen
          IN  [e EXCEPT !.segs = Put(@, s, g2), !.flight = fl,
                        \* a split probe was the newest segment: the stream continues after the shorter one
-                       !.nextOff = IF split /\ Nx(s, 1) = e.nxt THEN g.off + plen ELSE @]
+                       !.nextOff = IF split /\ Nx(s, 1) = e.nxt THEN g.off + plen ELSE @,
+                       !.rtxBase = IF e.flight = 0 /\ ~FinUnacked(e) THEN now ELSE @]
     ELSE [e EXCEPT !.segs = Put(@, s, Seg(pos, plen, now)),
                    !.flight = @ + plen,
                    !.nxt = Nx(s, 1),
-                   !.nextOff = pos + plen]
+                   !.nextOff = pos + plen,
+                   !.rtxBase = IF ~SentUnacked(e) /\ ~FinUnacked(e) THEN now ELSE @]
+
+\* The implementation gave up on a size probe (send error or expiry): its sequence number will be
+\* re-used by a shorter segment starting at the same offset; it no longer counts as outstanding and
+\* a timeout that was really the probe's loss does not start timeout recovery.
+ProbePopped(e, s, expired) ==
+    IF ~Known(e, s) THEN [e EXCEPT !.rtoMode = IF expired THEN FALSE ELSE @]
+    ELSE LET g == e.segs[s] IN
+         [e EXCEPT !.segs = Put(@, s, [g EXCEPT !.popped = TRUE, !.counted = FALSE, !.lost = TRUE]),
+                   !.flight = @ - (IF g.counted THEN g.len ELSE 0),
+                   !.probeOut = -1,
+                   !.rtoMode = IF expired THEN FALSE ELSE @]
 
 (***************************************************************************)
 (* Acknowledgement processing (effect of a processed packet on the sender) *)
@@ -155,7 +209,7 @@ MaxLen(e, S) ==
     IN  Go(S)
 
 \* sackSet: offsets i such that sequence number ack + 2 + i is selectively acknowledged
-RecvAck(e, ack, wnd, sackSet, isState) ==
+RecvAck(e, ack, wnd, hasSack, sackSet, isState, now, line) ==
     LET gone   == CumAcked(e, ack)
         ackedB == SumLen(e, gone, LAMBDA g : TRUE)
         cntB   == SumLen(e, gone, LAMBDA g : g.counted)
@@ -168,28 +222,44 @@ RecvAck(e, ack, wnd, sackSet, isState) ==
         adv    == gone # {} \/ newS # {}
         finAck == e.fin.seq >= 0 /\ ~e.fin.acked /\ D(e.fin.seq, ack) <= 0
         nSack  == Cardinality(sackSet)
-        dup    == ~adv /\ Outstanding(e) /\ isState /\ D(Nx(ack, 1), e.una) = 0
+        atHole == D(Nx(ack, 1), e.una) = 0
+        dup    == ~adv /\ Outstanding(e) /\ atHole /\ (isState \/ hasSack)
+        sdup   == dup /\ isState /\ ~hasSack /\ wnd = e.lastRxWnd
+        dupN   == IF adv THEN 0 ELSE IF dup THEN e.dupAcks + 1 ELSE e.dupAcks
+        sdupN  == IF adv \/ ~isState \/ wnd # e.lastRxWnd THEN 0 ELSE IF sdup THEN e.strictDup + 1 ELSE e.strictDup
+        spN    == IF hasSack THEN e.sackPkts + 1 ELSE 0
+        evid   == dupN >= DUP_THRESH \/ nSack >= DUP_THRESH \/ spN >= DUP_THRESH
+        recDone == e.recPoint >= 0 /\ D(ack, e.recPoint) >= 0
+        rec0   == IF recDone THEN -1 ELSE e.recPoint
+        stillOut == \E s \in rest : ~segs2[s].sacked
+        \* the recovery point is read loosely: the highest sequence number sent while the evidence stands
+        rec1   == IF evid /\ stillOut THEN MaxSeq(rec0, Nx(e.nxt, SeqMod - 1)) ELSE rec0
+        \* strictest trigger of a fast retransmission (obligation): the third strict duplicate, or a
+        \* packet whose selective ACK marks three packets above the hole, outside any recovery
+        strictTrig == /\ rec0 < 0 /\ ~e.rtoMode /\ stillOut /\ e.frDue = 0
+                      /\ \/ sdupN = DUP_THRESH /\ sdup
+                         \/ (nSack >= DUP_THRESH /\ atHole /\ e.sackHi < DUP_THRESH)
     IN  [e EXCEPT !.segs = segs2,
                   !.una = IF gone = {} THEN @ ELSE IF D(Nx(ack, 1), @) > 0 THEN Nx(ack, 1) ELSE @,
                   !.acked = @ + ackedB,
                   !.flight = @ - cntB - sackB,
                   !.pwnd = wnd,
+                  !.lastRxWnd = wnd,
                   !.maxAcked = Max(@, Max(MaxLen(e, gone), MaxLen(e, newS))),
                   !.rtoMode = IF adv \/ finAck THEN FALSE ELSE @,
-                  !.dupAcks = IF adv THEN 0 ELSE IF dup THEN @ + 1 ELSE @,
-                  !.sackHi = IF gone # {} THEN nSack ELSE Max(@, nSack),
-                  !.recPoint = IF @ >= 0 /\ D(ack, @) >= 0 THEN -1 ELSE @,
+                  !.rtoLast = IF adv \/ finAck THEN 0 ELSE @,
+                  !.rtxBase = IF adv \/ finAck THEN now ELSE @,
+                  !.dupAcks = dupN, !.strictDup = sdupN, !.sackPkts = spN,
+                  !.sackHi = nSack,
+                  !.recPoint = rec1,
+                  !.frDue = IF strictTrig THEN line ELSE IF ~stillOut THEN 0 ELSE @,
+                  !.probeOut = IF @ >= 0 /\ (@ \in gone \/ @ \in newS) THEN -1 ELSE @,
                   !.fin = IF finAck THEN [@ EXCEPT !.acked = TRUE] ELSE @]
-
-\* a packet that the connection does not act upon at all (C17: out-of-order FIN,
-\* SYN on a live connection; RESET ends the connection): only the window /
-\* acknowledgement processing is skipped
-RecvWindowOnly(e, wnd) == e
 
 (***************************************************************************)
 (* C05  sender obeys the peer's window and slow start                      *)
+(*      (evaluated on the state after TxData, for a first transmission)    *)
 (***************************************************************************)
-\* evaluated on the state *after* TxData, for a first transmission (cnt = 1, ver = 1)
 InLossRecovery(e, recoveringFlag) == recoveringFlag \/ e.rtoMode
 
 \* "the bytes it then has outstanding do not exceed the receive window most recently advertised to it"
@@ -202,8 +272,23 @@ R_C05_ZeroWindowSilence(e, recoveringFlag) ==
 R_C05_SlowStartBound(e, mss) ==
     ~e.lossSeen => e.flight <= 2 * mss + e.acked
 \* "immediately after a retransmission timeout it sends a single segment until new data is acknowledged"
-R_C05_OneSegmentAfterRto(e, s, tag) ==
-    (e.rtoMode /\ tag # "rto") => FALSE
+R_C05_OneSegmentAfterRto(e, tag) == e.rtoMode => tag = "rto"
+
+(***************************************************************************)
+(* C06  retransmission discipline (permissions, on the retransmission hook)*)
+(***************************************************************************)
+\* "is retransmitted when its retransmission timeout expires" / "three duplicate acknowledgements or
+\* equivalent selective-ACK evidence trigger a retransmission": a retransmission needs one of the two
+R_C06_RetxAllowed(e, s, tag) ==
+    \/ tag = "rto"
+    \/ (e.recPoint >= 0 /\ D(s, e.recPoint) <= 0)
+\* the timer cannot expire earlier than the minimum RTO after its last (re)start
+R_C06_RtoNotEarly(e, now) == now >= e.rtxBase + RTO_MIN - Eps
+\* "successive timeouts with no intervening acknowledgement double (within 200 ms..60 s)"
+\* (values are logged in whole microseconds: +-2 for the truncation)
+R_C06_Backoff(e, rto) ==
+    e.rtoLast > 0 => LET want == Min(2 * e.rtoLast, RTO_MAX) IN rto >= want - 2 /\ rto <= want + 2
+R_C06_RtoRange(rto) == RTO_MIN <= rto /\ rto <= RTO_MAX
 
 (***************************************************************************)
 (* C04  receiver honesty                                                   *)
@@ -218,10 +303,11 @@ R_C04_SackExact(e, ack, hasSack, sackSet) ==
     /\ hasSack => sackSet = HeldOffsets(e, ack)
     /\ ~hasSack => HeldOffsets(e, ack) = {}
 \* "The advertised receive window never exceeds the free space actually left in the configured receive buffer"
-Stored(e) ==
+HeldBytes(e) ==
     LET RECURSIVE Go(_)
         Go(T) == IF T = {} THEN 0 ELSE LET s == CHOOSE x \in T : TRUE IN e.held[s] + Go(T \ {s})
-    IN  (e.consumed - e.rd) + Go(DOMAIN e.held)
+    IN  Go(DOMAIN e.held)
+Stored(e) == (e.consumed - e.rd) + HeldBytes(e)
 \* slack: a message the reader popped but only partly copied out is outside the queue
 ReaderSlack(e) == IF e.rdFull THEN e.maxPay ELSE 0
 R_C04_WindowHonest(e, wnd) == wnd <= Max(0, e.cfg.rx_buf - Stored(e)) + ReaderSlack(e)
@@ -236,9 +322,8 @@ ContigBytes(e, s, n) ==
         Go(k) == IF k > n THEN 0 ELSE e.held[Nx(s, k)] + Go(k + 1)
     IN  Go(1)
 
-\* the hook's disposition must agree with what the specification computes from the
-\* packets seen: a consumed packet is the next expected one and releases exactly the
-\* contiguous run held behind it
+\* the hook's disposition must agree with what the specification computes from the packets seen:
+\* a consumed packet is the next expected one and releases exactly the contiguous run held behind it
 R_C04_ConsumeExact(e, s, n, bytes, plen) ==
     /\ s = Nx(e.rnxt, 1)
     /\ n = 1 + ContigAfter(e, s)
@@ -246,17 +331,78 @@ R_C04_ConsumeExact(e, s, n, bytes, plen) ==
 R_C04_OutOfOrderIsAhead(e, s) == D(s, Nx(e.rnxt, 1)) > 0 /\ s \notin DOMAIN e.held
 R_C04_DuplicateIsOld(e, s) == D(s, e.rnxt) <= 0
 R_C04_AlreadyPresentIsHeld(e, s) == s \in DOMAIN e.held
+\* "a sender that respects it can never overflow the receiver and its data stays within the configured buffer size"
+\* (rightEdge: the largest stream position any advertised window has allowed so far)
+InsideAdvertised(e) == e.consumed + HeldBytes(e) <= e.rightEdge
+R_C04_WithinBuffer(e) == InsideAdvertised(e) => Stored(e) <= e.cfg.rx_buf
 
-DispConsumed(e, s, plen) ==
+(* C07 triggers are set here: the effect of storing / declining a packet on the ACK obligations *)
+AckTrig(e, bytes, imm, now, line) ==
+    LET ub == e.unackedB + bytes
+        im == imm \/ ub >= 2 * OwnMss(e)
+    IN  [e EXCEPT !.unackedB = ub,
+                  !.ackDue = IF bytes > 0 /\ @ < 0 THEN now + ACK_DELAY ELSE @,
+                  !.ackImm = IF im /\ @ = 0 THEN line ELSE @]
+
+DispConsumed(e, s, plen, now, line) ==
     LET n == 1 + ContigAfter(e, s)
         released == { Nx(s, k) : k \in 1 .. (n - 1) }
         b == plen + ContigBytes(e, s, n - 1)
-    IN  [e EXCEPT !.rnxt = Nx(s, n - 1), !.held = Del(@, released),
-                  !.consumed = @ + b, !.maxPay = Max(@, plen)]
-DispOutOfOrder(e, s, plen) == [e EXCEPT !.held = Put(@, s, plen), !.maxPay = Max(@, plen)]
-DispFinAccepted(e, s) == [e EXCEPT !.rnxt = s, !.peerFin = s]
+        gap == DOMAIN e.held # {}          \* "fills a gap"
+        e1 == [e EXCEPT !.rnxt = Nx(s, n - 1), !.held = Del(@, released),
+                        !.consumed = @ + b, !.maxPay = Max(@, plen)]
+    IN  AckTrig(e1, b, gap, now, line)
+DispOutOfOrder(e, s, plen, now, line) ==
+    AckTrig([e EXCEPT !.held = Put(@, s, plen), !.maxPay = Max(@, plen)], 0, TRUE, now, line)
+DispDuplicate(e, now, line) == AckTrig(e, 0, TRUE, now, line)
+DispFinAccepted(e, s, now, line) ==
+    LET e1 == [e EXCEPT !.rnxt = s, !.peerFin = s,
+                        \* C17 "answered with the endpoint's own FIN" once its data is out
+                        !.finAnsDue = IF e.fin.seq < 0 /\ e.nextOff = e.wr THEN line ELSE 0]
+    IN  AckTrig(e1, 0, TRUE, now, line)
 
-Emitted(e, ack, wnd) == [e EXCEPT !.lastAck = ack, !.lastWnd = wnd]
+\* every emitted packet carries the current ack_nr and window: it discharges the ACK obligations
+Emitted(e, ack, wnd, now) ==
+    [e EXCEPT !.lastAck = ack, !.lastWnd = wnd, !.unackedB = 0, !.ackDue = -1, !.ackImm = 0,
+              !.rightEdge = Max(@, e.consumed + HeldBytes(e) + Min(wnd, 1000000000)),
+              !.stim = FALSE, !.txCount = @ + 1, !.lastWire = now]
+
+(***************************************************************************)
+(* C07  acknowledgement timeliness                                         *)
+(***************************************************************************)
+\* "An established endpoint with nothing new to acknowledge and nothing to send stays silent":
+\* a pure ST_STATE needs a stimulus (a packet processed, an application call) since the previous
+\* emission, or something new to acknowledge
+\* (or report that the window opened from / closed to zero)
+R_C07_NoSpontaneousAck(e, wnd) ==
+    \/ e.stim \/ e.lastAck < 0
+    \/ (e.lastAck >= 0 /\ D(e.rnxt, e.lastAck) > 0)
+    \/ ((wnd = 0) # (e.lastWnd = 0))
+\* "Every in-order data packet an endpoint accepts is acknowledged within the 40 ms delayed-ACK interval"
+R_C07_DelayedAck(e, t) == e.ackDue >= 0 => t <= e.ackDue + Eps
+\* "and immediately (without any clock advance) once the unacknowledged bytes reach twice its own segment
+\*  size, when a packet arrives out of order or fills a gap, when a duplicate arrives, when a FIN arrives,
+\*  and when the receive window re-opens from zero"
+R_C07_ImmediateAck(e) == e.ackImm = 0
+
+(***************************************************************************)
+(* C17  handshake and teardown on the wire                                 *)
+(***************************************************************************)
+\* "its FIN carries the sequence number following the last data segment"
+R_C17_FinSeq(e, s, abort) ==
+    IF e.fin.seq >= 0 /\ ~abort THEN s = e.fin.seq
+    ELSE IF abort THEN D(s, e.nxt) >= 0
+    ELSE s = e.nxt
+\* "is sent only after all accepted data has been transmitted" (when closing on its own initiative)
+R_C17_FinAfterData(e) == e.nextOff = e.wr
+\* "no new payload follows it"
+R_C17_NothingAfterFin(e, s) == e.fin.seq >= 0 => (Known(e, s) /\ D(s, e.fin.seq) < 0)
+\* "A peer's FIN is honoured only in sequence"
+R_C17_PeerFinInOrder(e, s) == s = Nx(e.rnxt, 1)
+TxFin(e, s, abort, now) ==
+    [e EXCEPT !.fin = [seq |-> s, cnt |-> (IF e.fin.seq = s THEN e.fin.cnt + 1 ELSE 1), acked |-> FALSE, abort |-> abort],
+              !.idleFin = 0, !.finAnsDue = 0,
+              !.rtxBase = IF ~SentUnacked(e) /\ e.fin.seq < 0 THEN now ELSE @]
 
 (***************************************************************************)
 (* Application calls                                                       *)
@@ -264,11 +410,29 @@ Emitted(e, ack, wnd) == [e EXCEPT !.lastAck = ack, !.lastWnd = wnd]
 \* C01 "the bytes an application has read ... are a prefix of the bytes the peer application wrote"
 R_C01_ReadIsPrefix(e, runs, n) == Len(runs) = 1 /\ runs[1][1] = e.rd /\ runs[1][2] = n
 R_C01_ReadWithinWritten(e, n, peerWr) == e.rd + n <= peerWr
-AppRead(e, n, want) == [e EXCEPT !.rd = @ + n, !.rdFull = (n = want)]
-AppWrite(e, n) == [e EXCEPT !.wr = @ + n]
+AppRead(e, n, want) == [e EXCEPT !.rd = @ + n, !.rdFull = (n = want), !.stim = TRUE]
+Idle(e) == e.wr = e.acked /\ ~Outstanding(e) /\ e.fin.seq < 0 /\ e.state = "established" /\ e.dying = ""
+AppWrite(e, n, line) ==
+    [e EXCEPT !.wr = @ + n, !.stim = TRUE,
+              \* C02 "a write on an idle connection is transmitted at once"
+              !.idleWr = IF Idle(e) /\ e.pwnd > 0 /\ n > 0 /\ ~e.txPending THEN line ELSE @]
 
 \* C19 "The bytes a stream has accepted from write but not yet had acknowledged never exceed
 \*      the configured transmit buffer limit (the larger of its initial and maximum size)"
 R_C19_TxBounded(e) == e.wr - e.acked <= Max(e.cfg.tx_init, e.cfg.tx_max)
+\* C19 "it is woken as soon as acknowledgements free space" / C02 "blocked readers/writers are always
+\*      woken when their condition changes": a write may not stay pending across a clock advance
+\*      while the buffer has room
+R_C19_WriteNotStuck(e) == ("write" \in e.pend /\ ~e.ended) => e.wr - e.acked >= e.ringCap
+
+\* C03 "A successful flush or shutdown implies every byte written before it has been acknowledged by the peer's stack"
+R_C03_FlushHonest(e, pos) == e.acked >= pos
+\* C03 "a reader sees end-of-stream only after every byte that preceded the peer's FIN"
+R_C03_EofOnlyAfterFin(e) == e.peerFin >= 0 /\ e.rd = e.consumed
+\* C03 "will reach a peer application that keeps reading even if the network then dies" / "never a clean
+\*      end-of-stream with bytes missing while the writer was told its shutdown succeeded"
+R_C03_SuccessMeansDelivered(e, peerFlushMark) == e.rd >= peerFlushMark
+\* C03 "When a connection is aborted ... every pending and later read/write/flush/shutdown resolves with an error"
+AbortedWithError(e) == e.ended /\ e.result # "ok"
 
 =============================================================================
